@@ -14,3 +14,27 @@ spec fn term_clean(b: Seq<u8>) -> bool {
 
 /// first pass of the sanitiser: offending ASCII bytes become a space
 spec fn san1(x: u8) -> u8 { if bad_ascii(x) { 0x20u8 } else { x } }
+
+// ---- ring reader: trimming a window of recent bytes to UTF-8 boundaries (src/ring_reader.rs) ----
+spec fn is_cont(b: u8) -> bool { 0x80 <= b <= 0xBF }
+/// number of leading continuation bytes
+spec fn lead_conts(b: Seq<u8>) -> nat
+    decreases b.len(),
+{
+    if b.len() > 0 && is_cont(b[0]) { 1 + lead_conts(b.skip(1)) } else { 0 }
+}
+spec fn expected_len(lead: u8) -> Option<nat> {
+    if lead <= 0x7F { Some(1nat) } else if 0xC2 <= lead <= 0xDF { Some(2nat) } else if 0xE0 <= lead <= 0xEF { Some(3nat) } else if 0xF0 <= lead <= 0xF4 { Some(4nat) } else { None }
+}
+/// the window does not stop in the middle of a code point: looking back over at most 3 continuation bytes there is a
+/// lead byte whose sequence is complete (or a byte that is no valid lead at all, which is left for lossy decoding)
+spec fn tail_settled(b: Seq<u8>) -> bool {
+    b.len() == 0 || exists|i: int| 0 <= i < b.len() && b.len() - i <= 4 && #[trigger] settled_at(b, i)
+        && (forall|j: int| i < j < b.len() ==> is_cont(#[trigger] b[j]))
+}
+spec fn settled_at(b: Seq<u8>, i: int) -> bool { match expected_len(b[i]) { Some(n) => b.len() - i >= n, None => true } }
+proof fn lemma_cont_bits(b: u8)
+    ensures ((b & 0b1100_0000) == 0b1000_0000) == is_cont(b), is_cont(b) ==> b != 0x0a,
+{
+    assert(((b & 0b1100_0000) == 0b1000_0000) == (0x80 <= b && b <= 0xBF)) by(bit_vector);
+}
